@@ -50,6 +50,7 @@ def mathh_bin(config):
 def build_mathh(config):
     tc, args, tdir = CONFIGS[config]
     with lib.build_lock("lock-cargo-mathh-" + config):
+        lib.point_manifest(MATHH)
         lock_src = os.path.join(lib.REPO, "Cargo.lock")
         if os.path.exists(lock_src) and not os.path.exists(os.path.join(MATHH, "Cargo.lock")):
             shutil.copy(lock_src, os.path.join(MATHH, "Cargo.lock"))
